@@ -8,6 +8,14 @@ DATASET_KINDS = ('equal', 'approx', 'student', 'bonferroni', 'holm')
 ALL_KINDS = DATASET_KINDS + ('metadata', 'stats_tasks', 'stats_tests', 'stats_labels', 'failed')
 
 
+class ShapeMismatch(Exception):
+    """An exception that can be pickled but not rebuilt from the pickle (two mandatory constructor arguments, one message)."""
+
+    def __init__(self, expected, got):
+        super().__init__(f'expected shape {expected}, got {got}')
+        self.expected, self.got = expected, got
+
+
 def make_bins(shape):
     if shape == ():
         return None
@@ -103,6 +111,10 @@ def build(kind, shape=(3,), patterns=((False, True, False),), alpha=0.05, extra=
         dss = make_datasets((2,), ((False, False),))
         test = TestEqual(*dss, name='t_failed', description='evaluation raised')
         return test, TestResultFailed(test, 'ValueError: something went wrong')
+    if kind == 'failed_exc':
+        dss = make_datasets((2,), ((False, False),))
+        test = TestEqual(*dss, name='t_failed', description='evaluation raised')
+        return test, TestResultFailed(test, ShapeMismatch((2,), (3,)))       # what actually_eval_test records: the exception itself
     if kind == 'metadata':
         return build_metadata(extra if extra is not None else (True, False))
     if kind == 'stats_tasks':
